@@ -53,6 +53,9 @@ func genC16(tier string, seed uint64, emit func(string)) {
 			emit(fmt.Sprintf("snap %s %d %d %d %d", kind, size, 2+r.Intn(2), ms, r.U64()%1000000))
 		}
 	}
+	// a started server on which a second Start failed, then concurrent INCRs on one key over real sockets
+	emit(fmt.Sprintf("snap start2 %d 1500 0 %d", 6+r.Intn(4), r.U64()%1000000))
+	emit(fmt.Sprintf("snap start2 %d 400 0 %d", 12+r.Intn(8), r.U64()%1000000))
 	// keys with a time to live that are overwritten around the moment it elapses: an acknowledged plain SET stays
 	ttlRuns := 2
 	if tier == "thorough" {
@@ -274,6 +277,9 @@ func runSnap(toks []string) Result {
 	}
 	if kind == "ttl" {
 		return runTTLSnap(toks)
+	}
+	if kind == "start2" {
+		return runStart2Snap(toks)
 	}
 	size, _ := strconv.Atoi(toks[2])
 	readers, _ := strconv.Atoi(toks[3])
